@@ -267,3 +267,54 @@ func boundedBy(v ssa.Value, vm VM) bool {
 	}
 	return false
 }
+
+// linearTerms flattens a tree of integer + and - into signed leaf terms.
+func linearTerms(v ssa.Value) (pos, neg []ssa.Value) {
+	var walk func(v ssa.Value, sign bool)
+	walk = func(v ssa.Value, sign bool) {
+		sv := stripConv(v)
+		if b, ok := sv.(*ssa.BinOp); ok && (b.Op == token.ADD || b.Op == token.SUB) {
+			walk(b.X, sign)
+			if b.Op == token.ADD {
+				walk(b.Y, sign)
+			} else {
+				walk(b.Y, !sign)
+			}
+			return
+		}
+		if sign {
+			pos = append(pos, sv)
+		} else {
+			neg = append(neg, sv)
+		}
+	}
+	walk(v, true)
+	return
+}
+
+// isLinear: v is exactly the sum of terms matching posWant minus terms
+// matching negWant (each matcher used once, order irrelevant).
+func isLinear(v ssa.Value, posWant, negWant []VM) bool {
+	pos, neg := linearTerms(v)
+	match := func(vals []ssa.Value, want []VM) bool {
+		if len(vals) != len(want) {
+			return false
+		}
+		used := make([]bool, len(vals))
+		for _, w := range want {
+			found := false
+			for i, x := range vals {
+				if !used[i] && w(x) {
+					used[i] = true
+					found = true
+					break
+				}
+			}
+			if !found {
+				return false
+			}
+		}
+		return true
+	}
+	return match(pos, posWant) && match(neg, negWant)
+}
